@@ -55,16 +55,28 @@ func genHeaderLines(rng *Rng, o genHeadOpts, framing string) []string {
 	var lines []string
 	eol := "\r\n"
 	add := func(k, v string) {
-		sp := " "
-		if !o.wellFormed {
-			switch rng.Intn(8) {
-			case 0:
-				sp = ""
-			case 1:
-				sp = "   "
-			}
+		// optional whitespace (SP / HTAB) before and after the value is part of the RFC grammar, also for the
+		// framing and connection fields
+		sp, tail := " ", ""
+		switch rng.Intn(12) {
+		case 0:
+			sp = ""
+		case 1:
+			sp = "   "
+		case 2:
+			sp = "\t"
+		case 3:
+			sp = " \t "
 		}
-		lines = append(lines, k+":"+sp+v+eol)
+		switch rng.Intn(12) {
+		case 0:
+			tail = " "
+		case 1:
+			tail = "\t"
+		case 2:
+			tail = " \t"
+		}
+		lines = append(lines, k+":"+sp+v+tail+eol)
 	}
 	nh := rng.Intn(6)
 	if rng.Intn(4) != 0 {
